@@ -335,6 +335,15 @@ def bit_leaf(env):
         opts.append(st.sampled_from(env.loc_bits).map(lambda n: ["loc", n, 1]))
     if env.in_vecs:
         opts.append(st.tuples(st.sampled_from(env.in_vecs), st.integers(0, env.W - 1)).map(lambda t: ["idx", ["in", t[0]], t[1]]))
+    if env.in_vecs and env.W >= 3:
+        # three-level view chain with non-zero lower bounds: x[W-1:1][h:1][k]
+        W = env.W
+
+        def chain(t):
+            name, h2, k = t
+            h2 = min(h2, W - 2)
+            return ["idx", ["slice", ["slice", ["in", name], W - 1, 1], h2, 1], min(k, h2 - 1)]
+        opts.append(st.tuples(st.sampled_from(env.in_vecs), st.integers(1, W - 2), st.integers(0, W - 3)).map(chain))
     if not opts:
         opts.append(st.sampled_from([0, 1]).map(lambda v: ["bconst", v]))
     return st.one_of(opts)
